@@ -19,9 +19,9 @@ import (
 func init() {
 	Register(&Check{
 		Spec: core.Spec{ID: "C07", Level: "exploration",
-			Rule:        "case = one started engine whose DataStore/MetaStore wrapper holds a chosen flush-path call (k-th CreateFile/Write/Close/Update) at a gate while 1-3 clients keep issuing non-empty, empty and flush-triggering batches and Flush calls, so Flush lands with 0, 1 or 2 flushes queued or in flight and with empty or non-empty buffers; then the gate opens. Answers are never consumed during the run: a monitor polls len() of the buffered done channels, so 'B answered while an earlier-accepted non-empty A is not' is a monotone state it cannot misread. At every Flush return (nil) all batches accepted before the call must be answered and those answered nil visible to a query. In every third history each batch lives in one of 2-4 partitions and only a partition's own row limit (2-5) triggers flushes, so a later batch can fill its partition while an earlier one sits in another. Every fifth case is a late-receiver history instead: the earlier batch has an unbuffered done channel whose receiver only starts once it has seen a later subject answered (or 250 ms), and an explicit Flush, a limit-triggering later batch or a time-triggered flush follows; a later subject answered while that receiver has not started is a violation. non-trivial = history in which at least one Flush was called while a flush was held at the gate; distinct = distinct (gate position, client script, schedule signature)",
+			Rule:        "case = one started engine whose DataStore/MetaStore wrapper holds a chosen flush-path call (k-th CreateFile/Write/Close/Update) at a gate while 1-3 clients keep issuing non-empty, empty and flush-triggering batches and Flush calls, so Flush lands with 0, 1 or 2 flushes queued or in flight and with empty or non-empty buffers; then the gate opens. Answers are never consumed during the run: a monitor polls len() of the buffered done channels, so 'B answered while an earlier-accepted non-empty A is not' is a monotone state it cannot misread. At every Flush return (nil) all batches accepted before the call must be answered and those answered nil visible to a query. In every third history each batch lives in one of 2-4 partitions and only a partition's own row limit (2-5) triggers flushes, so a later batch can fill its partition while an earlier one sits in another. Every third history has no gate: one flush fails after its file was created (a Write or the Close) and its cleanup (Abort, TombstoneFile) takes 20-60 ms while later flushes succeed; the failed flush's error answers must still precede every later nil. Every fifth case is a late-receiver history instead: the earlier batch has an unbuffered done channel whose receiver only starts once it has seen a later subject answered (or 250 ms), and an explicit Flush, a limit-triggering later batch or a time-triggered flush follows; a later subject answered while that receiver has not started is a violation. non-trivial = history in which at least one Flush was called while a flush was held at the gate; distinct = distinct (gate position, client script, schedule signature)",
 			Assumptions: []string{"'accepted earlier' = IngestRows returned before the later call started (logical clock); concurrent calls impose no order", "subjects are non-empty batches and Flush (empty batches are acknowledged on acceptance, pinned by TestEmptyIngestAcksImmediately)"},
-			Floors:      map[string]int64{"histories": 50, "flush_calls_while_gated": 50, "order_checks": 2000, "visibility_queries": 60, "late_receiver_histories": 15, "histories_one_partition_per_batch": 20}},
+			Floors:      map[string]int64{"histories": 50, "flush_calls_while_gated": 50, "order_checks": 2000, "visibility_queries": 60, "late_receiver_histories": 15, "histories_one_partition_per_batch": 20, "histories_failed_flush_slow_cleanup": 20}},
 		Cases:       func(t string) int { return nQueries(t, 120, 4000) },
 		Run:         runC07,
 		RaceMatters: true,
@@ -210,6 +210,15 @@ func runC07(rc *RunCtx, i int) {
 	if gateKind == "Write" {
 		gateN = r.Range(0, 9)
 	}
+	// every third history has no gate: instead one flush fails after its file was created (its
+	// k-th Write or its Close) and the cleanup it provokes (Abort, TombstoneFile) is slow, while
+	// later flushes succeed - the error answer of the failed flush must still come first
+	failMode := i%3 == 2
+	failKind, failN := core.Pick(r, []string{"Write", "Write", "Close"}), r.Range(0, 3)
+	if failMode {
+		gateN = -1
+		rc.Res.Count("histories_failed_flush_slow_cleanup", 1)
+	}
 	gate := stores.NewGate(false)
 	var gateHit atomic.Bool
 	pr := r.Split("plan")
@@ -218,6 +227,15 @@ func runC07(rc *RunCtx, i int) {
 		pmu.Lock()
 		defer pmu.Unlock()
 		var a stores.Action
+		if failMode {
+			if c.Kind == failKind && c.N == failN {
+				a.Fail = true
+			}
+			if c.Kind == "Abort" || c.Kind == "TombstoneFile" {
+				a.Delay = time.Duration(pr.Range(20, 60)) * time.Millisecond
+			}
+			return a
+		}
 		if c.Kind == gateKind && c.N == gateN {
 			a.Gate = gate
 			gateHit.Store(true)
@@ -298,7 +316,7 @@ func runC07(rc *RunCtx, i int) {
 			scripts[c] = append(scripts[c], core.Pick(r, []string{"batch", "batch", "batch", "empty", "flush", "flush", "pause"}))
 		}
 	}
-	if maxBuf < time.Second && i%2 == 0 {
+	if maxBuf < time.Second && i%2 == 0 && !failMode {
 		// the flush that is held at the gate is a time-triggered one and nothing is queued behind
 		// it when Flush arrives with empty buffers
 		clients = 1
